@@ -127,12 +127,16 @@ func NewNeverType() Type                                    { return Type(NeverT
 
 type AnyType struct {
 	Range errors.Span
+	// The inner type of the `none` literal: no value of this type ever exists, so it fits every option type.
+	IsNonePlaceholder bool
 }
 
-func (self AnyType) Kind() TypeKind                       { return AnyTypeKind }
-func (self AnyType) String() string                       { return "any" }
-func (self AnyType) Span() errors.Span                    { return self.Range }
-func (self AnyType) SetSpan(span errors.Span) Type        { return Type(NewAnyType(span)) }
+func (self AnyType) Kind() TypeKind    { return AnyTypeKind }
+func (self AnyType) String() string    { return "any" }
+func (self AnyType) Span() errors.Span { return self.Range }
+func (self AnyType) SetSpan(span errors.Span) Type {
+	return Type(AnyType{Range: span, IsNonePlaceholder: self.IsNonePlaceholder})
+}
 func (self AnyType) Fields(_ errors.Span) map[string]Type { return make(map[string]Type) }
 func (self AnyType) IsPrimitive() bool                    { return self.Kind().IsPrimitive() }
 func NewAnyType(span errors.Span) Type                    { return Type(AnyType{Range: span}) }
